@@ -5,7 +5,7 @@ For an *abstract* stream (tokenizer-side proofs) the view is a ghost field; for 
 a function of its fields and of the ghost `src_rest` (the unread characters of the underlying source):
     chunk[chunkOffset:] + norm(buffered + src_rest)
 """
-from pyvc.contract import in_chars, no_chars
+from pyvc.contract import in_chars, no_chars, implies, assume_lemma, code
 
 
 def norm(t):
@@ -25,3 +25,28 @@ def view(s):
 
 def first_or_none(t):
     return None if t == "" else t[0]
+
+
+def is_lead_surrogate(c):
+    return len(c) == 1 and 0xD800 <= code(c) and code(c) <= 0xDBFF
+
+
+def inv(s):
+    """representation invariant of HTMLUnicodeInputStream"""
+    return (s.chunkSize == len(s.chunk) and 0 <= s.chunkOffset and s.chunkOffset <= s.chunkSize
+            and "\r" not in s.chunk
+            and (s._bufferedCharacter is None or s._bufferedCharacter == "\r" or is_lead_surrogate(s._bufferedCharacter)))
+
+
+# ---- lemmas about newline normalisation (assumed; exercised natively on every replay and by the bounded
+# ---- lemma check of the thorough tier: all strings over {a, CR, LF} up to length 8) ----------------------
+def split_safe(a, b):
+    """normalisation distributes over a split that does not cut a CR LF pair"""
+    return assume_lemma("split_safe", implies(not (a.endswith("\r") and b.startswith("\n")),
+                                              norm(a + b) == norm(a) + norm(b)))
+
+
+def norm_basics(a):
+    """norm('') == '', norm of CR-free text is the text, the result is CR-free, single CR -> LF"""
+    return assume_lemma("norm_basics", norm("") == "" and implies("\r" not in a, norm(a) == a)
+                        and "\r" not in norm(a) and norm("\r") == "\n" and implies(a != "", norm(a) != ""))
